@@ -103,6 +103,30 @@ def cemgil_more_reference_than_estimated_beats(inp, what=""):
     return False
 
 
+@region("information_gain_all_backward_intervals_zero")
+def information_gain_all_backward_intervals_zero(inp, what=""):
+    """information gain is nan iff the backward error histogram is empty: every (trimmed) reference beat is
+    measured against an inter-beat interval of length 0 of the (trimmed) estimated sequence"""
+    if "Information gain" not in what or "nan" not in what:
+        return False
+    ref = [F(x) for x in inp["ref"] if F(x) >= 5]
+    est = [F(x) for x in inp["est"] if F(x) >= 5]
+    if len(ref) < 2 or len(est) < 2:
+        return False
+    for r in ref:
+        d = [r - e for e in est]
+        c = min(range(len(d)), key=lambda i: (abs(d[i]), i))      # np.argmin: first minimum
+        if c == len(est) - 1:
+            iv = est[-1] - est[-2]
+        elif d[c] < 0:
+            iv = est[c] - est[c - 1]        # c == 0 wraps to est[-1], as in the code
+        else:
+            iv = est[c + 1] - est[c]
+        if iv != 0:
+            return False
+    return True
+
+
 # ---------------------------------------------------------------------------------------------
 # C14
 @region("beat_reference_beats_in_one_sample")
